@@ -2,7 +2,7 @@
    case the implementation ran (directory layout as filepath.Walk listed it, loader configuration, what the
    parent loader binds, operation sequence). *)
 From Coq Require Import ZArith NArith Bool List.
-From PcoreV Require Import Model.Base Model.FileLoader Model.FileLoaderText.
+From PcoreV Require Import Model.Base Model.FileLoader Model.FileLoaderText Proofs.FileLoaderIff.
 Import ListNotations.
 Local Open Scope nat_scope.
 
@@ -57,8 +57,14 @@ Definition text_ok (w : world) (x : nat * str * str * nat) : bool :=
 Definition c15_model (c : ccase) : list (out * list (nat * str)) :=
   skipn (length (flat_map snd (cc_prev c))) (run_session c15_fuel (cc_prev c ++ [(cc_world c, cc_ops c)])).
 
+(* C15_definition_file_never_missed evaluated on the OBSERVED outcomes of the generation (Proofs/FileLoaderIff.v:
+   iff_ok_from - with the theorem's own predicates `consulted` / `defined_file` in their decidable forms): as long as
+   no operation of the generation reported an error, no lookup of a name for which a consulted loader has a
+   well-formed, correctly named definition file at the derived path was answered "not found" - in every topology *)
+Definition c15_iff_ok (c : ccase) : bool := iff_ok_from (cc_world c) (cc_ops c) (cc_outs c).
+
 Definition c15_check (c : ccase) : bool :=
   world_ok (cc_world c) && forallb (text_ok (cc_world c)) (cc_texts c) &&
-  list_eqb outr_eqb (c15_model c) (cc_outs c).
+  list_eqb outr_eqb (c15_model c) (cc_outs c) && c15_iff_ok c.
 
 Definition c15_mismatches (cs : list ccase) : list N := failing c15_check cs.
